@@ -152,6 +152,8 @@ class InterpModel:
                         p["exit"] = ("err",)
                     else:
                         p["exit"] = ("ret?", r)
+                elif s.exit[0] == "continue":
+                    p["exit"] = None          # `continue` ends the iteration like falling off the arm: a live path
                 else:
                     p["exit"] = s.exit
             regs = []
